@@ -1,4 +1,17 @@
+ENG_NOTE = ("Real tsdb.Shard/tsm1/tsi1/series-file code instrumented at build time; one synctest bubble per run; the baton scheduler "
+            "decides every interleaving at lock/atomic/channel sites of the instrumented packages (code inside uninstrumented "
+            "dependencies runs atomically); disk = tmpfs pass-through with numbered events; Flux is a stub. Sampling, not proof. ")
+
 CHECKS = {
+ "C01": dict(level="exploration",
+   text="Seeded search over multi-client write/overwrite/read/snapshot/full-compaction programs against a real shard whose cache-snapshot and compaction goroutines run for real on simulated time; every read (random ranges, both directions, while background work is in flight; full reads at quiescence, after a settle period and after a clean reopen) is checked against a history model with interval semantics (a value must belong to a write not definitely overwritten before the read began; a point may be missing only if no write is definitely live). Two lost-write races were found this way and fixed (known_findings.json C01-F1/F2).",
+   note=ENG_NOTE + "Timestamp domain: 24 slots plus bulk runs of up to 2100 consecutive timestamps; 12 series x 5 field types. Reads use the array-cursor path with bounds inside [MinNanoTime, MaxNanoTime]."),
+ "C02": dict(level="fault_enumeration",
+   text="Histories as C01 plus range deletes and measurement drops; at tape-sampled disk events (every kind of event: WAL appends, TSM temp writes, renames, removals, tombstone and fields.idxl writes, directory syncs) a crash image is cut (state before the event plus a torn prefix of the write in flight), the real open/recovery code is run on the image under the scheduler, everything is read back and judged against the history as of the cut (acknowledged operations must be reflected, in-flight ones may be applied or not, nothing else may appear), and a further write must succeed and read back. Crash points are sampled per history, not exhaustively enumerated, in the quick tier.",
+   note=ENG_NOTE + "Process-crash model (data written to the OS survives; the write in flight may be torn). Power-loss reordering of unsynced data is not modelled in this check. An in-flight range delete may be applied to some files only (deletes are atomic per file)."),
+ "C03": dict(level="exploration",
+   text="C01 workload plus delete clients (range deletes over generated series sets and ranges, measurement drops) racing with real snapshots and level/full compactions; checked immediately after each delete returns, on every later read, at quiescence, after the settle period (snapshots/compactions), after a clean reopen and after sampled crash images: no point written before the delete began and covered by it may be returned once the delete has returned; other points must be intact. The delete-vs-snapshot defect (hypothesis H1) was found this way and fixed (C03-F1).",
+   note=ENG_NOTE + "Writers and deleters of one measurement exclude each other through a harness lock standing in for the Store's write/delete guard (C17 exercises the real guard); snapshots, compactions and readers are unconstrained."),
  "C26": dict(level="fault_enumeration",
    text="Generated append/consume/advance/reopen/purge histories run against the real durable queue on a simulated disk; a crash image (state before the event plus every interesting torn prefix of the write in flight) is cut at every disk event (thorough, and one configuration of quick) or at sampled events, the real Open/repair code is run on each image and everything still deliverable is drained and compared with the model (in order, no gaps, nothing unknown, redelivery allowed). Sampling of histories, enumeration of crash points within a history.",
    note="Process-crash model: completed writes survive, the write in flight may be torn at any byte. Torn in-place appends/footer updates are a recorded known finding (C26-F1/F2) and do not gate; every other crash point gates. Power-loss reordering of unsynced data is not modelled for this property."),
